@@ -4,7 +4,7 @@
      par (ser (jdoc_of t)) = Some (jdoc_of t)             for tables t with distinct keys, and
      par (firstn k (ser (jdoc_of t))) = None              for every k < length (every proper prefix),
    validated on CPython by the harness for every generated file at every byte offset. *)
-From CF Require Import Common.Bytes C03.Model C03.ExtModel C03.Fetch C03.Lookup C11.Model C11.Proofs C11.Conc.
+From CF Require Import Common.Bytes C03.Model C03.ExtModel C03.Fetch C03.Lookup C11.Model C11.Proofs C11.Conc C11.Observers.
 Open Scope Z_scope.
 
 (* Crash safety, wrong-table safety and read-only directory, for ALL histories: starting from cache
@@ -139,3 +139,39 @@ Theorem C11_concurrent_writers_isolated : forall (ser : jdoc -> list Z) (par : l
     exists c t, In (c, t) jobs /\ nm = cache_name c /\ d = jdoc_of t /\ ct = ser (jdoc_of t).
 Proof. exact concurrent_isolated. Qed.
 Print Assumptions C11_concurrent_writers_isolated.
+
+(* The holder of the table and its observers (model C11/Observers.v, tied to the real Toc object).  A cache hit
+   assigns the loaded table straight to the holder (`self.toc.toc = cache_data`).  Lookups are pure observers:
+   for EVERY history before the hit (adds, clears, earlier installs, lookups of any kind at any point) the holder
+   afterwards is the installed table and every lookup answers as a function of that table only. *)
+Theorem C11_lookups_are_pure_observers : forall t0 pre t post,
+  forallb is_lookup post = true ->
+  hrun t0 (pre ++ OInstall t :: post) = (t, snd (hrun t0 pre) ++ map (answer t) post).
+Proof. exact after_install. Qed.
+Print Assumptions C11_lookups_are_pure_observers.
+
+(* ... so after a hit on the table stored for device entries `items`, by id, by (group, name) and by complete
+   name all return the device's entry, for every entry, whatever was looked up before *)
+Theorem C11_hit_lookups_agree : forall c items t0 pre i it,
+  NoDup (map key items) -> nth_error items i = Some it -> ~ In 46 (di_group it) -> ~ In 46 (di_name it) ->
+  snd (hrun t0 (pre ++ [OInstall (reload (spec_toc c items)); OById (Z.of_nat i);
+                        OByName (di_group it) (di_name it); OByCN (di_group it ++ [46] ++ di_name it)])) =
+  snd (hrun t0 pre) ++ [Some (spec_elem c (Z.of_nat i) it); Some (spec_elem c (Z.of_nat i) it);
+                        Some (spec_elem c (Z.of_nat i) it)].
+Proof. exact hit_lookups_agree. Qed.
+Print Assumptions C11_hit_lookups_agree.
+
+(* A memoising by-id observer is equivalent to the pure holder provided the cache-hit path invalidates the
+   memo like add_element and clear do ... *)
+Theorem C11_memo_invalidated_on_hit_ok : forall ops s,
+  memo_ok s -> fst (fst (mrun true s ops)) = fst (hrun (fst s) ops) /\ snd (mrun true s ops) = snd (hrun (fst s) ops).
+Proof. exact memo_invalidated_ok. Qed.
+Print Assumptions C11_memo_invalidated_on_hit_ok.
+
+(* ... and refuted when it does not: one lookup on the still empty holder, then the hit: the table is right but
+   invisible by id and by complete name *)
+Theorem C11_memo_not_invalidated_refuted :
+  snd (hrun [] witness_ops) = [None; Some witness_elem; Some witness_elem; Some witness_elem] /\
+  snd (mrun false ([], None) witness_ops) = [None; None; Some witness_elem; None].
+Proof. exact memo_not_invalidated_refuted. Qed.
+Print Assumptions C11_memo_not_invalidated_refuted.
